@@ -158,6 +158,23 @@ M = {
     "c20_pair_const": ("C20", [sub("src/lib.rs", "pub const PAIR: u32 = 536_870_912;", "pub const PAIR: u32 = 268_435_456;")]),
     "c20_filter_const": ("C20", [sub("src/lib.rs", "pub const MULTIPLES_FILTER: u32 = 536_870_911;", "pub const MULTIPLES_FILTER: u32 = 1_073_741_823;")]),
     "c20_trips_or_pair": ("C20", [sub("src/lib.rs", "self.as_u32() | CardNumber::TRIPS", "self.as_u32() | CardNumber::TRIPS | CardNumber::PAIR")]),
+    # panic injections: an assertion / overflow that only fails for one in-domain input (totality rules)
+    "p06_from_assert": ("C06", [sub("src/hand_rank.rs", "    fn from(value: HandRankValue) -> Self {\n        HandRank {", "    fn from(value: HandRankValue) -> Self {\n        debug_assert!(value != 40000, \"x\");\n        HandRank {")]),
+    "p07_cmp_assert": ("C07", [sub("src/hand_rank.rs", "    fn cmp(&self, other: &HandRank) -> Ordering {\n", "    fn cmp(&self, other: &HandRank) -> Ordering {\n        assert!(!(self.value == 7000 && other.value == 3), \"x\");\n")]),
+    "p08_shift_assert": ("C08", [sub("src/lib.rs", "    fn shift_suit(&self) -> Self {\n        CKCNumber::create", "    fn shift_suit(&self) -> Self {\n        debug_assert!(*self != CardNumber::SEVEN_HEARTS, \"x\");\n        CKCNumber::create")]),
+    "p10_prime_assert": ("C10", [sub("src/lib.rs", "    fn get_rank_prime(&self) -> u32 {\n        self.as_u32()", "    fn get_rank_prime(&self) -> u32 {\n        debug_assert!(self.as_u32() != CardNumber::SEVEN_HEARTS, \"x\");\n        self.as_u32()")]),
+    "p10_filter_assert": ("C10", [sub("src/lib.rs", "    pub fn filter(number: CKCNumber) -> CKCNumber {\n        <CKCNumber", "    pub fn filter(number: CKCNumber) -> CKCNumber {\n        debug_assert!(number != 12345678, \"x\");\n        <CKCNumber")]),
+    "p13_straight_overflow": ("C13", [sub(F5, "        let rank_bits = self.or_rank_bits();\n        // The padding", "        let rank_bits = self.or_rank_bits();\n        let _ = rank_bits + 0xFFFF_E100;\n        // The padding")]),
+    "p14_from_ckc_overflow": ("C14", [sub("src/cards/binary_card.rs", "    fn from_ckc(ckc: CKCNumber) -> BinaryCard {\n        match", "    fn from_ckc(ckc: CKCNumber) -> BinaryCard {\n        let _ = ckc + 1;\n        match")]),
+    "p15_peel_assert": ("C15", [sub("src/cards/binary_card.rs", "    fn peel(&mut self) -> BinaryCard {\n", "    fn peel(&mut self) -> BinaryCard {\n        debug_assert!(*self >> 60 == 0, \"x\");\n")]),
+    "p16_tryfrom_assert": ("C16", [sub("src/cards/two.rs", "    fn try_from(binary_card: BinaryCard) -> Result<Self, Self::Error> {\n", "    fn try_from(binary_card: BinaryCard) -> Result<Self, Self::Error> {\n        assert!(binary_card != (7u64 << 61), \"x\");\n")]),
+    "p17_chen_assert": ("C17", [sub("src/cards/two.rs", "    pub fn chen_formula(&self) -> i8 {\n", "    pub fn chen_formula(&self) -> i8 {\n        debug_assert!(self.first() != CardNumber::SEVEN_HEARTS || self.second() != CardNumber::DEUCE_CLUBS, \"x\");\n")]),
+    "p18_get_assert": ("C18", [sub("src/deck.rs", "    pub fn get(index: usize) -> CKCNumber {\n        if", "    pub fn get(index: usize) -> CKCNumber {\n        assert!(index < (1usize << 40), \"x\");\n        if")]),
+    "p19_setter_assert": ("C19", [sub(F5, "    pub fn set_third(&mut self, card_number: CKCNumber) {\n", "    pub fn set_third(&mut self, card_number: CKCNumber) {\n        debug_assert!(card_number != 0, \"x\");\n")]),
+    "p20_flag_assert": ("C20", [sub("src/lib.rs", "    fn flag_as_pair(&self) -> CKCNumber {\n", "    fn flag_as_pair(&self) -> CKCNumber {\n        debug_assert_eq!(self.as_u32() & CardNumber::PAIR, 0, \"x\");\n")]),
+    "s01_inherent_shadow": ("C01", [sub(F5, "    pub fn set_third(&mut self, card_number: CKCNumber) {", "    #[must_use]\n    pub fn hand_rank_value(&self) -> crate::hand_rank::HandRankValue {\n        if self.is_flush() { 1 } else { <Five as crate::cards::HandRanker>::hand_rank_value(self) }\n    }\n\n    pub fn set_third(&mut self, card_number: CKCNumber) {")]),
+    "s08_inherent_shift": ("C08", [sub(F5, "    pub fn set_third(&mut self, card_number: CKCNumber) {", "    #[must_use]\n    pub fn shift_suit(&self) -> Five {\n        *self\n    }\n\n    pub fn set_third(&mut self, card_number: CKCNumber) {")]),
+    "p04_unique_any_consumes": ("C04", [sub("src/cards/seven.rs", "        let sorted = self.sort();\n        let mut last: CKCNumber = u32::MAX;\n        for c in sorted.iter() {\n            if *c >= last {\n                return false;\n            }\n            last = *c;\n        }\n        true", "        let mut rest = self.iter();\n        while let Some(card) = rest.next() {\n            if rest.any(|c| c == card) {\n                return false;\n            }\n        }\n        true")]),
 }
 
 
